@@ -258,6 +258,13 @@ def include_chains(rng, quick):
                         pass
                     trace = ";".join("%s:%d" % (names[i], inc_line[i]) for i in range(j - 1, -1, -1))
                     out.append((files, ("trace", names[j], fl, trace)))
+                    # the LAST file of the chain exists but cannot be read (a socket: not a directory, os.Stat succeeds, reading
+                    # fails): a fault of the INCLUDE directive in f_(k-1), reached through the includes that lead to f_(k-1) -
+                    # the INCLUDE that failed is not part of its own trace
+                    if j == k and not after and variant in (0, 2):
+                        files4 = [(nm, c_) for nm, c_ in files[:-1]] + [(names[k] + "@@socket", b"")]
+                        tr4 = ";".join("%s:%d" % (names[i], inc_line[i]) for i in range(k - 2, -1, -1))
+                        out.append((files4, ("trace4", names[k - 1], inc_line[k - 1], tr4)))
                     # a directive that cannot stand where it is, written directly BEFORE the INCLUDE of file f_m (m < k): it is
                     # a fault of f_m, reached through the includes that lead to f_m - not through f_m's own INCLUDE
                     if not after and variant == 0:
@@ -356,8 +363,8 @@ def project_stage(res, tier, seed, rp):
         if isinstance(fam, tuple) and fam[0] == "span" and st != "err":
             bad.append(("a Path property typed by a structured or undefined user type is not rejected (%s)" % st, pj, o))
             continue
-        if isinstance(fam, tuple) and fam[0] in ("trace", "trace2", "trace3") and st != "err":
-            bad.append(("a duplicate TYPE in an included file is not rejected (%s)" % st, pj, o))
+        if isinstance(fam, tuple) and fam[0] in ("trace", "trace2", "trace3", "trace4") and st != "err":
+            bad.append(("a duplicate TYPE in an included file / an unreadable included file is not rejected (%s)" % st, pj, o))
             continue
         if st != "err" or "file" not in d:
             continue
@@ -370,7 +377,7 @@ def project_stage(res, tier, seed, rp):
         if fname not in files:
             if fname:
                 bad.append(("the diagnostic names the file %r which is not part of the project" % fname, pj, o))
-            elif isinstance(fam, tuple) and fam[0] in ("trace", "trace2", "trace3"):
+            elif isinstance(fam, tuple) and fam[0] in ("trace", "trace2", "trace3", "trace4"):
                 bad.append(("the fault is in %s line %d, reached through the includes %r; the diagnostic names no file at all" % (fam[1], fam[2], fam[3]), pj, o))
             continue
         content = files[fname]
@@ -384,12 +391,13 @@ def project_stage(res, tier, seed, rp):
         if line != want and not (idx == 0 and line == 0):
             bad.append(("line %d does not agree with index %d of %s (line %d)" % (line, idx, fname, want), pj, o))
             continue
-        if isinstance(fam, tuple) and fam[0] in ("trace", "trace2", "trace3"):
+        if isinstance(fam, tuple) and fam[0] in ("trace", "trace2", "trace3", "trace4"):
             _, wfile, wline, wtrace = fam
             got = C.unhx(d.get("trace", "-")).decode("latin1") if d.get("trace", "-") != "-" else ""
             if fname != wfile or line != wline or got != wtrace:
                 bad.append(("the fault is %s in %s line %d, reached through the includes %r; the diagnostic says %s line %d with the trace %r"
-                            % ({"trace": "the second TYPE @dup", "trace2": "the misplaced directive before the INCLUDE", "trace3": "the parenthesis left open at the end"}[fam[0]], wfile, wline, wtrace, fname, line, got), pj, o))
+                            % ({"trace": "the second TYPE @dup", "trace2": "the misplaced directive before the INCLUDE", "trace3": "the parenthesis left open at the end",
+                                "trace4": "the INCLUDE of a file that exists but cannot be read"}[fam[0]], wfile, wline, wtrace, fname, line, got), pj, o))
             continue
         if isinstance(fam, tuple) and fam[0] == "span":
             _, wfile, a0, a1 = fam
